@@ -10,7 +10,7 @@ LEVEL = "translation_validation"
 RULE = ("every run_experiment_group definition with 0..3 instances x chain_experiments x group deps {none, one, two incl. another "
         "package} x per-instance args/options/parallelizable (2 values each) x name clashes (instance=instance, instance=group, "
         "instance=other task) x malformed members x per-instance args/options of the wrong shape (tuples, strings, dicts, ranges, None, "
-        "pair lists, nested values); an independent expander emits the explicit run_experiment/combine COND text the "
+        "pair lists, nested values) x instances constructed positionally; an independent expander emits the explicit run_experiment/combine COND text the "
         "documentation prescribes; both forms are loaded through the real TaskIndex and the task graphs compared (identifiers, types, "
         "ordered deps, run, args, options, flags; accept/reject agreement), and for <=2 instances both forms are executed under the "
         "virtual kernel and spawn traces, Conductor output and resulting cond-out trees compared. programs = group definitions; "
@@ -123,6 +123,17 @@ def gen(tier):
             insts = [("e0", [], {}, False), ("e1", [], {"t": 2}, False)]
             insts[pos] = (insts[pos][0], [], {"__raw__": raw}, False)
             yield {"tag": "inst-options", "insts": insts, "chain": bool(pos), "deps": [":base"], "run": True}
+    # ExperimentInstance built positionally: the documented field order is (name, args, options, parallelizable)
+    pos = [
+        ('[ExperimentInstance("e0", ["x", 1], {"t": 2}, True)]', [("e0", ["x", 1], {"t": 2}, True)]),
+        ('[ExperimentInstance("e0", ["x", 1]), ExperimentInstance("e1", [], {"t": 2})]', [("e0", ["x", 1], {}, False), ("e1", [], {"t": 2}, False)]),
+        ('[ExperimentInstance("e0", True)]', [("e0", {"__raw__": "True"}, {}, False)]),
+        ('[ExperimentInstance("e0", {"t": 2})]', [("e0", {"__raw__": '{"t": 2}'}, {}, False)]),
+        ('[ExperimentInstance("e0", [], {}, True), ExperimentInstance("e1", ["y"], {}, True)]', [("e0", [], {}, True), ("e1", ["y"], {}, True)]),
+    ]
+    for raw, insts in pos:
+        for chain in (False, True):
+            yield {"tag": "positional", "insts": insts, "raw_group_insts": raw, "chain": chain, "deps": [":base"], "run": True}
     for raw in ('["e0"]', '[("e0", [], {}, False)]', "None", "5", '[ExperimentInstance(name="e0"), None]'):
         yield {"tag": "malformed", "insts": None, "raw": raw, "chain": False, "deps": None, "run": False}
 
@@ -199,7 +210,7 @@ def run_case(case, found, res):
         gsrc = listsrc.replace("experiments=" + lit, "experiments=" + wrapped, 1)
         esrc = expand_src("g", "./exp.sh", case["insts"], bool(case["chain"]), case["deps"])
     elif case.get("insts") is not None:
-        gsrc = group_src("g", "./exp.sh", case["insts"], case["chain"], case["deps"])
+        gsrc = group_src("g", "./exp.sh", case["insts"], case["chain"], case["deps"], raw_insts=case.get("raw_group_insts"))
         esrc = expand_src("g", "./exp.sh", case["insts"], bool(case["chain"]), case["deps"])
     else:
         gsrc = group_src("g", "./exp.sh", None, case["chain"], case["deps"], raw_insts=case["raw"])
